@@ -450,7 +450,7 @@ func (x *c20E2E) awaitRelease(rec *c20Receipt) bool {
 			runtime.Gosched()
 			continue
 		}
-		if !c20StackHas("releaseReloadPendingAfterRetirement", "clearReloadPending") {
+		if !c20ReleaseRunning() { // (the parked release goroutines of part 4 do not count)
 			break
 		}
 		if time.Now().After(deadline) {
